@@ -143,35 +143,32 @@ func main() {
 			order[len(everyKey)+i] = len(everyKey) + j
 		}
 	}
-	for _, si := range order {
-		s := srcs[si]
-		isEvery := *one == "" && si < len(everyKey)
-		if npos >= budget && !isEvery {
-			continue
-		}
+	// runSource: precondition (clean, also when re-encoded), then every
+	// position x every selected shape
+	runSource := func(s source, isEvery bool, shapeSel func(pi, shi int) bool, emitSel func(pi, shi int) bool, keySuffix string) {
 		var doc yaml.Node
 		if err := yaml.Unmarshal(s.Src, &doc); err != nil {
 			nskipped++
-			continue
+			return
 		}
 		errs, err := lint(s.Src)
 		if err != nil || len(errs) > 0 {
 			nskipped++
-			if isEvery {
+			if isEvery && keySuffix == "" {
 				sum.OracleFails = append(sum.OracleFails, failure{What: "the synthetic every-key workflow does not lint clean (harness precondition)", Key: "precondition:" + s.Name, File: s.Name, Diags: fmtErrs(errs)})
 			}
-			continue
+			return
 		}
 		// the re-encoded (unmutated) workflow must be clean too
 		re, err := marshal(&doc)
 		if err != nil {
 			nskipped++
-			continue
+			return
 		}
 		if errs, err := lint(re); err != nil || len(errs) > 0 {
 			nskipped++
 			skipped = append(skipped, s.Name+" (re-encoded form not clean)")
-			continue
+			return
 		}
 		nclean++
 		poss := scalarPositions(&doc)
@@ -183,11 +180,14 @@ func main() {
 			canon := canonPath(pos.Keys)
 			canonSeen[canon]++
 			for shi, shape := range shapes {
+				if !shapeSel(pi, shi) {
+					continue
+				}
 				inj := inject(&doc, pos, shape)
 				sum.Evaluations++
 				var fail *failure
 				mk := func(what, key string) *failure {
-					return &failure{What: what, Key: key, File: s.Name, Path: pos.Path, Shape: shape, Exempt: inj.Exempt,
+					return &failure{What: what, Key: key + keySuffix, File: s.Name, Path: pos.Path, Shape: shape, Exempt: inj.Exempt,
 						Line: inj.Line, Col: inj.Col, Diags: fmtErrs(inj.Errs), Workflow: string(inj.Src)}
 				}
 				switch {
@@ -211,6 +211,9 @@ func main() {
 				if inj.Exempt != "" {
 					cls = "exempt: " + inj.Exempt
 				}
+				if keySuffix != "" {
+					cls = "sibling configuration, " + cls
+				}
 				if fail == nil {
 					sum.Dist[cls]++
 					if inj.Syntax {
@@ -220,8 +223,7 @@ func main() {
 				// correspondence case: the AST the real parser produces for the
 				// mutated workflow, and the scalars at which an expression
 				// syntax error was observed
-				emit := isEvery && (*tier == "thorough" || shi == pi%len(shapes))
-				if emit {
+				if emitSel(pi, shi) {
 					w, perrs := actionlint.Parse(inj.Src)
 					if w != nil {
 						obs := [][2]int{}
@@ -245,6 +247,90 @@ func main() {
 				}
 			}
 		}
+	}
+	all := func(int, int) bool { return true }
+	none := func(int, int) bool { return false }
+	for _, si := range order {
+		s := srcs[si]
+		isEvery := *one == "" && si < len(everyKey)
+		if npos >= budget && !isEvery {
+			continue
+		}
+		emit := none
+		if isEvery {
+			emit = func(pi, shi int) bool { return *tier == "thorough" || shi == pi%len(shapes) }
+		}
+		runSource(s, isEvery, all, emit, "")
+	}
+
+	// sibling configurations: every-key workflows with one key (and its value)
+	// removed — e.g. a container with `volumes` but no `ports` —, kept when the
+	// result still lints clean.  Thorough: all of them x all positions x all
+	// shapes; quick: a seeded sample, one shape per position.
+	nsib := 0
+	if *one == "" {
+		type del struct {
+			src  source
+			what string
+		}
+		var dels []del
+		for _, k := range everyKey {
+			var doc yaml.Node
+			if yaml.Unmarshal([]byte(k.Src), &doc) != nil {
+				continue
+			}
+			var walk func(n *yaml.Node, keys []string)
+			walk = func(n *yaml.Node, keys []string) {
+				switch n.Kind {
+				case yaml.DocumentNode, yaml.SequenceNode:
+					for _, c := range n.Content {
+						k2 := keys
+						if n.Kind == yaml.SequenceNode {
+							k2 = append(append([]string{}, keys...), "[]")
+						}
+						walk(c, k2)
+					}
+				case yaml.MappingNode:
+					for i := 0; i+1 < len(n.Content); i += 2 {
+						saved := n.Content
+						nc := append(append([]*yaml.Node{}, n.Content[:i]...), n.Content[i+2:]...)
+						ks := append(append([]string{}, keys...), saved[i].Value)
+						n.Content = nc
+						if b, err := marshal(&doc); err == nil {
+							dels = append(dels, del{source{k.Name + " without " + strings.Join(ks, "."), b}, canonPath(ks)})
+						}
+						n.Content = saved
+						walk(saved[i+1], ks)
+					}
+				}
+			}
+			walk(&doc, nil)
+		}
+		idx := make([]int, len(dels))
+		for i := range idx {
+			idx[i] = i
+		}
+		if *tier != "thorough" {
+			p := rng.Perm(len(dels))
+			if len(p) > 30 {
+				p = p[:30]
+			}
+			idx = p
+		}
+		for _, i := range idx {
+			d := dels[i]
+			sel := all
+			if *tier != "thorough" {
+				sel = func(pi, shi int) bool { return shi == (pi+i)%len(shapes) }
+			}
+			before := nclean
+			runSource(d.src, true, sel, none, " without:"+d.what)
+			if nclean > before {
+				nsib++
+			}
+		}
+		sum.Extra["sibling_configurations_derived"] = len(dels)
+		sum.Extra["sibling_configurations_clean_and_explored"] = nsib
 	}
 	sum.Extra["clean_workflows"] = nclean
 	sum.Extra["skipped_workflows"] = nskipped
